@@ -1314,12 +1314,29 @@ package router
 // readReqMsg / HandleFastHTTP: as for the net/http variant - a decoded query or an error status, never a panic,
 // bounded body and decode buffer; a request is handled at most once and gets at most one body, the packed
 // response. (This listener applies no admission control at all; see DESIGN section 6, noted.)
+// X-Forwarded-For: the client is the FIRST address of the list - the text before the first comma, or the whole
+// value when there is no comma (or it starts with one) -, parsed by netip.ParseAddr; its verdict is returned as is.
 //@ func readClientAddrFromXFFBytes(b []byte) (a netip.Addr, err error)
-//@   props C01
+//@   props C01 C15 C07
+//@   ghost gA netip.Addr = nil
+//@   ghost gE error = nil
+//@   ghost gS string = ""
+//@   aftercall Bytes2StrUnsafe: gS = ret0
+//@   aftercall ParseAddr: gA = ret0
+//@   aftercall ParseAddr: gE = ret1
 //@   modifies nothing
+//@   callsite Bytes2StrUnsafe: [C15,C07:first-address-of-the-list] sameSlice(arg0, b, 0, len(arg0)) && ((len(arg0) > 0 && arg0[0] == ',') || forall(j, 0, len(arg0), arg0[j] != ',')) && (len(arg0) == len(b) || b[len(arg0)] == ',')
+//@   callsite ParseAddr: [C15,C07:parses-that-text] arg0 == gS
+//@   ensures [C15,C07:the-parsers-verdict] a == gA && err == gE
 //@ func readClientAddrFromXFF(s string) (a netip.Addr, err error)
-//@   props C01
+//@   props C01 C15 C07
+//@   ghost gA netip.Addr = nil
+//@   ghost gE error = nil
+//@   aftercall ParseAddr: gA = ret0
+//@   aftercall ParseAddr: gE = ret1
 //@   modifies nothing
+//@   callsite ParseAddr: [C15,C07:first-address-of-the-list] sameSlice(arg0, s, 0, len(arg0)) && ((len(arg0) > 0 && arg0[0] == ',') || forall(j, 0, len(arg0), arg0[j] != ',')) && (len(arg0) == len(s) || s[len(arg0)] == ',')
+//@   ensures [C15,C07:the-parsers-verdict] a == gA && err == gE
 //@ func (h *fasthttpHandler) readReqMsg(ctx *fasthttp.RequestCtx) (m *dnsmsg.Msg)
 //@   props C01 C20
 //@   requires h != nil && h.logger != nil && ctx != nil
